@@ -1914,6 +1914,17 @@ FINALIZE:
 }
 
 func (query *Query) execAndPostProcess() (result any, err error) {
+	// post processors evaluate expressions too (AWAIT reads its arguments there)
+	defer func() {
+		if r := recover(); r != nil {
+			result = nil
+			if e, ok := r.(error); ok {
+				err = e
+			} else {
+				err = fmt.Errorf("%v", r)
+			}
+		}
+	}()
 	rs, err := query.exec()
 	if err != nil {
 		return nil, err
